@@ -197,7 +197,7 @@ func RunBatch(env *Env, workdir string, jobs []*Job) (map[string]map[string]*VRe
 		args = append(args, "-o", b+string(os.PathSeparator), "./...")
 		cmd := exec.Command("go", args...)
 		cmd.Dir = m
-		cmd.Env = append(os.Environ(), "GOFLAGS=-mod=mod", "GOWORK=off")
+		cmd.Env = append(os.Environ(), "GOFLAGS=-mod=mod", "GOWORK=off", "GOCACHE="+GenCacheDir())
 		outb, _ := cmd.CombinedOutput()
 		// attribute diagnostics to packages
 		cur := ""
@@ -299,4 +299,41 @@ func RunBatch(env *Env, workdir string, jobs []*Job) (map[string]map[string]*VRe
 		}
 	})
 	return out, nil
+}
+
+// GenCacheDir is the Go build cache used for generated parsers only. Go never
+// trims entries younger than five days, and every generated package leaves a
+// few hundred kilobytes behind, so the harness keeps this cache apart from the
+// user's and wipes it when it grows (TrimGenCache).
+func GenCacheDir() string {
+	if d := os.Getenv("VERIF_GEN_GOCACHE"); d != "" {
+		return d
+	}
+	base, err := os.UserCacheDir()
+	if err != nil {
+		base = os.TempDir()
+	}
+	return filepath.Join(base, "verif-gen-gocache")
+}
+
+// TrimGenCache removes the generated-code build cache when it exceeds limit bytes.
+func TrimGenCache(limit int64) {
+	dir := GenCacheDir()
+	var total int64
+	filepath.WalkDir(dir, func(p string, d os.DirEntry, err error) error {
+		if err == nil && !d.IsDir() {
+			if fi, e := d.Info(); e == nil {
+				total += fi.Size()
+			}
+		}
+		return nil
+	})
+	if total > limit {
+		old := fmt.Sprintf("%s.old.%d", dir, os.Getpid())
+		if os.Rename(dir, old) == nil {
+			os.RemoveAll(old)
+		} else {
+			os.RemoveAll(dir)
+		}
+	}
 }
